@@ -53,7 +53,7 @@ class Ctx:
         self.notes = []
 
 
-def eval_function(repo, modname, qual, arg_terms=None, inline_depth=2, refine_guards=True):
+def eval_function(repo, modname, qual, arg_terms=None, inline_depth=2, refine_guards=True, extra_env=None):
     """Return (outcomes, ctx).  Each outcome: kind in {'ret','raise','fall'}, cond
     (path condition term), value term."""
     fn = repo.func(modname, qual)
@@ -61,6 +61,8 @@ def eval_function(repo, modname, qual, arg_terms=None, inline_depth=2, refine_gu
     ctx = Ctx(repo, modname, cls, inline_depth)
     ctx.refine_guards = refine_guards
     env = bind_params(fn, arg_terms)
+    if extra_env:
+        env.update(extra_env)          # e.g. {"self._t": ("epoch", sym)}: kinds/values of object fields
     outs = exec_block(ctx, body_without_docstring(fn), env, T.land())
     return outs, ctx
 
